@@ -387,6 +387,20 @@ pub fn gen_c04(rng: &mut Rng, thorough: bool) -> Vec<Tagged> {
             out.push((tag, Case::Net(spec, NetCmd::Learn { data, val: None, batch, epochs })));
         }
     }
+    // groups of more than 64 samples (the library's internal chunk size of the parallel map is 64):
+    // one step on the sum over the WHOLE group
+    for r in 0..(if thorough { 12 } else { 4 }) {
+        let n = rng.range(1, 3);
+        let mut spec = NetSpec::new(Sh::Flat(n).to_shape());
+        let d = Simple::Dense { out: 1, act: *rng.pick(&[Act::Linear, Act::Tanh]), bias: true, dropout: None };
+        spec.weights = Some(vec![LW::One(rand_w(rng, &d, Sh::Flat(n), 2))]);
+        spec.layers.push(LayerSpec::One(d));
+        spec.opt = rand_opt(rng, r % 5);
+        spec.obj = Obj::MSE;
+        let (nsamp, batch) = [(70usize, 70usize), (130, 100), (65, 65), (129, 128)][r % 4];
+        let data = rand_data(rng, nsamp, Sh::Flat(n), Sh::Flat(1), Obj::MSE);
+        out.push((format!("learn-big-groups-N{}-B{}", nsamp, batch), Case::Net(spec, NetCmd::Learn { data, val: None, batch, epochs: 2 })));
+    }
     // batches that are fitted exactly (all losses and gradients 0) must still take their step:
     // with decay / momentum / Adam moments a zero-gradient step is not a no-op
     let reps2 = if thorough { 60 } else { 10 };
@@ -647,6 +661,23 @@ pub fn gen_c05(rng: &mut Rng, thorough: bool) -> Vec<Tagged> {
             out.push(("par-predict-batch".into(), Case::Net(spec, NetCmd::PredictBatch(val.iter().map(|d| d.0.clone()).collect()))));
         }
     }
+    // shared-source skip connections: several skip gradients are summed in the backward pass
+    for _ in 0..(if thorough { 12 } else { 3 }) {
+        let n = rng.range(2, 4);
+        let mut sp = NetSpec::new(Sh::Flat(n).to_shape());
+        let mut ws = vec![];
+        for _ in 0..5 {
+            let d = Simple::Dense { out: n, act: *rng.pick(&[Act::Tanh, Act::Sigmoid]), bias: true, dropout: None };
+            ws.push(LW::One(rand_w(rng, &d, Sh::Flat(n), 2)));
+            sp.layers.push(LayerSpec::One(d));
+        }
+        sp.weights = Some(ws);
+        sp.connect = vec![(1, 2), (1, 3), (1, 4)];
+        sp.skipacc = Acc::Add;
+        sp.opt = rand_opt(rng, 0);
+        let data = rand_data(rng, 9, Sh::Flat(n), Sh::Flat(n), Obj::MSE);
+        out.push(("par-learn-shared-source-skips".into(), Case::Net(sp, NetCmd::Learn { data, val: None, batch: 3, epochs: 2 })));
+    }
     out
 }
 
@@ -660,7 +691,7 @@ pub fn fals_c05(rng: &mut Rng, thorough: bool) -> crate::fals::Fals {
     o.wkind = 2;
     o.dropout = true;
     o.acts = vec![Act::Tanh, Act::Sigmoid, Act::Leaky, Act::ReLU];
-    let nets = if thorough { 24 } else { 4 };
+    let nets = if thorough { 25 } else { 5 };
     let pools: Vec<usize> = if thorough { vec![1, 2, 3, 5, 8, 16, 33] } else { vec![1, 2, 3, 8, 33] };
     let reps = if thorough { 6 } else { 2 };
     let mut built = 0;
@@ -668,7 +699,22 @@ pub fn fals_c05(rng: &mut Rng, thorough: bool) -> crate::fals::Fals {
     while built < nets && tries < 200 {
         tries += 1;
         let spatial = built % 2 == 0;
-        let (mut spec, input, outsh) = if built % 4 == 3 {
+        let (mut spec, input, outsh) = if built % 5 == 4 {
+            // a dense chain in which one source feeds several skip targets (the backward pass sums
+            // several skip gradients: their order must not depend on the thread)
+            let n = rng.range(2, 4);
+            let mut sp = NetSpec::new(Sh::Flat(n).to_shape());
+            let mut ws = vec![];
+            for _ in 0..5 {
+                let d = Simple::Dense { out: n, act: *rng.pick(&[Act::Tanh, Act::Sigmoid]), bias: true, dropout: None };
+                ws.push(LW::One(rand_w(rng, &d, Sh::Flat(n), 2)));
+                sp.layers.push(LayerSpec::One(d));
+            }
+            sp.weights = Some(ws);
+            sp.connect = vec![(1, 2), (1, 3), (1, 4)];
+            sp.skipacc = Acc::Add;
+            (sp, Sh::Flat(n), Sh::Flat(n))
+        } else if built % 4 == 3 {
             // a feedback block with input skips and three or more loops (gradient additions from several skip targets)
             let mut ob = o.clone();
             ob.dropout = false;
